@@ -18,6 +18,7 @@ def run(e, R, tier):
     R.run_rules(e, [
         B.r_waitset,
         B.r_broken_paths,
+        B.r_mgr_total,
         B.r_broken_dispatch,
         B.r_broken_order,
         B.r_submit_gate,
